@@ -9,6 +9,7 @@ PRELUDE = ('fn g(p: &i32) -> i32\n{\n\tp = 2;\n\treturn: p\n}\n\n'
            'fn h(v: i32) -> i32\n{\n\treturn: v\n}\n\n'
            'fn k(p: &i32)\n{\n\tp = 2;\n}\n\n'
            'fn gu(p: &i32) -> usize\n{\n\tp = 2;\n\treturn: 0\n}\n\n'
+           'struct Handle\n{\n\ttarget: &i32,\n}\n\nfn poke(hd: Handle)\n{\n\thd.target = 2;\n}\n\n'
            'const K: i32 = 1;\n\n')
 
 # name: (parameter list, local declarations, place expression, mutable?)
@@ -50,6 +51,8 @@ def cases():
         if '[' in place:
             continue   # the address of an element is not part of the by-construction family (index typing rules interfere)
         out.append(('%sfn f(%s)\n{\n%s\tk(&%s);\n}\n' % (PRELUDE, params, locs, place), exp, 'address of %s passed to a writing callee (statement call)' % tn))
+        out.append(('%sfn f(%s)\n{\n%s\tvar hd: Handle = Handle { target: &%s };\n\tpoke(hd);\n}\n' % (PRELUDE, params, locs, place), exp,
+                    'address of %s stored in a structure literal that is handed to a writing callee' % tn))
         for cn, (ret, body, tail) in CONTEXTS.items():
             e, eu = 'g(&%s)' % place, 'gu(&%s)' % place
             fill = lambda t, a, b: t.replace('EU', '\x00').replace('E', a).replace('\x00', b)
@@ -85,6 +88,11 @@ def aggregate_cases():
     add(A3 + '\tvar w: W = W { arr: a, n: g(a) };\n', 'reject:531', 'whole array copied into a structure literal before a call in the same statement')
     add(A3 + '\tvar b: [3]i32 = [4, 5, 6];\n\tvar r: i32 = g(a);\n\tb = a;\n', 'reject:531', 'whole array copied in the statement after a call')
     add(A3 + '\tvar b: [2][3]i32 = [[0, 0, 0], [0, 0, 0]];\n\tvar r: i32 = h2(g(a), a);\n\tb[g(a)] = a;\n', 'reject:531', 'whole array copied into an element selected by a call')
+    NEST = '\tvar m: [2][3]i32 = [[1, 2, 3], [4, 5, 6]];\n\tvar row: [3]i32 = [0, 0, 0];\n\tvar w: W = W { n: 1, arr: [1, 2, 3] };\n'
+    add(NEST + '\trow = m[1];\n', 'reject:531', 'a whole array reached through an index is copied by assignment')
+    add(NEST + '\trow = w.arr;\n', 'reject:531', 'a whole array member is copied by assignment')
+    add(NEST + '\tvar r2: [3]i32 = m[0];\n', 'reject:531', 'a whole array reached through an index is copied by initialisation')
+    add(NEST + '\tvar e: i32 = m[1][2] + w.arr[0];\n', 'accept', 'single elements of nested aggregates are read')
     SL = '\tvar alice = "Alice";\n\tvar x: []char8 = format!("Hello ", alice);\n'
     add(SL + '\tvar n: usize = |x|;\n', 'accept', 'a local slice is read')
     add(SL + '\tx = format!("Bye ", alice);\n', 'reject:530', 'a local slice (a view, not a var of its own) is reassigned')
